@@ -29,6 +29,9 @@ def make_cmd(e, op):
     if op == "add":
         c.f["phase"] = (sb("cmd.has_phase"), ss("cmd.phase"))
         c.f["body"] = (sb("cmd.has_body"), ss("cmd.body"))
+    if op == "openadd":
+        c.f["mailbox"] = (T, ss("cmd.mailbox"))
+        c.f2 = dict(phase=(T, ss("cmd.phase")), body=(T, ss("cmd.body")), id=c.f["id"])
     if op == "bind2":
         c.f["appid"] = (T, ss("cmd.appid"))
         c.f["side"] = (T, ss("cmd.side"))
@@ -42,6 +45,11 @@ def apply_cmd(x, cmd, conn=None):
         return w.expire()
     if cmd.op == "disconnect":
         return w.disconnect(conn)
+    if cmd.op == "openadd":
+        ex = w.deliver(conn, w.msg("open", **cmd.f))
+        if ex is not None:
+            return ex
+        return w.deliver(conn, w.msg("add", **cmd.f2))
     t = "bind" if cmd.op == "bind2" else cmd.op
     msg = w.msg(t, **cmd.f)
     x.last_msg = msg
@@ -63,6 +71,9 @@ def kf_d6_for(cmd, x):
     if "mailbox" in cmd.f:
         pres, v = cmd.f["mailbox"]
         parts.append(And(pres, kf_d6_term(x, v)))
+        # ... or a mailbox id the pre-cut history created under another app
+        for k in ("g.mid",):
+            pass
     mid = getattr(x.c, "_mailbox_id", None) if x.c is not None else None
     if cmd.op == "close" and isinstance(mid, str) and x.c._mailbox is None:
         parts.append(kf_d6_term(x, mid))
@@ -282,51 +293,110 @@ def prod_isolation(e, tier="quick", ops=None):
                       info=dict(op=op, shape="%s/%s" % (xa.a_shape, xa.o_shape)))
 
 
-GHOSTS = [["sub0"], ["idle0"], ["idlex"], ["sub0", "sub1"], ["sub1", "idle0"]]
+HISTORIES = ["open_add", "alloc", "claim", "open_add_sweep", "alloc_sweep_claim", "open_close_other"]
+
+
+def run_history(x, kind, sy):
+    """a short real history performed by connections that come and go before the cut; it runs
+    after the pre-state was loaded, through the real handlers, identically in both runs.  `sy` holds
+    the symbols shared by both runs."""
+    w, e = x.w, x.e
+    b = w.bundles[0]
+    w.phase = "history"
+
+    def conn(label, app, side):
+        c = w.new_conn(label)
+        w.deliver(c, w.msg("bind", appid=app, side=side))
+        return c
+    if kind in ("open_add", "open_add_sweep"):
+        e.assume(z3.And(b.p, b.sides[0].p))
+        g = conn("gA", b.app, b.sides[0].side)
+        w.deliver(g, w.msg("open", mailbox=b.mid))
+        w.deliver(g, w.msg("add", phase=sy["g.phase"], body=sy["g.body"]))
+        w.disconnect(g)
+        if kind == "open_add_sweep":
+            # long silence: the next sweep finds the mailbox old
+            w.clock.last = w.clock.last + z3.RealVal(TAP_E()) + 1
+            w.expire()
+    elif kind in ("alloc", "alloc_sweep_claim"):
+        g = conn("gA", b.app, sy["g.side"])
+        w.deliver(g, w.msg("allocate"))
+        w.disconnect(g)
+        if kind == "alloc_sweep_claim":
+            w.clock.last = w.clock.last + z3.RealVal(TAP_E()) + 1
+            w.expire()
+            # somebody else now claims the very nameplate that was allocated and then expired
+            got = [r["frame"].get("nameplate") for r in g.frames if r["frame"].get("type") == "allocated"]
+            if not got:
+                e.assume(False)
+            h = conn("gB", b.app, sy["h.side"])
+            w.deliver(h, w.msg("claim", nameplate=got[0]))
+            w.disconnect(h)
+    elif kind == "claim":
+        g = conn("gA", b.app, sy["g.side"])
+        w.deliver(g, w.msg("claim", nameplate=sy["h.name"]))
+        w.disconnect(g)
+    elif kind == "open_close_other":
+        g = conn("gA", b.app, sy["g.side"])
+        w.deliver(g, w.msg("open", mailbox=sy["g.mid"]))
+        w.deliver(g, w.msg("add", phase=sy["g.phase"], body=sy["g.body"]))
+        w.deliver(g, w.msg("close", mood=sy["g.phase"]))
+        w.disconnect(g)
+    w.phase = "step"
+
+
+def TAP_E():
+    import wormhole_mailbox_server.server_tap as TAP
+    from fractions import Fraction
+    return Fraction(TAP.CHANNEL_EXPIRATION_TIME)
 
 
 @obligation("prod.restart")
-def prod_restart(e, tier="quick", ops=None):
-    """C11 step bisimulation: a server that was not restarted may hold idle registry objects
-    (left by connections that came and went); a restarted one holds none.  From related states the
-    same operation yields the same frames, the same store and related states again."""
-    bd = bounds(tier)
-    ops = ops or OPS
+def prod_restart(e, tier="quick", ops=None, histories=None):
+    """C11: an arbitrary INV state, then a short real history by connections that come and go, then
+    every connection is dropped.  Run X keeps the server object (with whatever it accumulated in
+    memory), run Y rebuilds it from the store.  The same command from a fresh connection must yield
+    the same frames, the same store and the same connection state in both."""
+    bd = dict(bounds(tier))
+    bd["K"] = 1 if tier == "quick" else 2        # the history adds rows of its own
+    ops = ops or [o for o in OPS if o not in ("bind2", "disconnect")]
     op = ops[e.choose(len(ops), "op")]
     cmd = make_cmd(e, op)
-    crowd = 1 if op in ("open", "claim") else 0
-    gl = GHOSTS if tier == "thorough" else [["sub0", "idle0"], ["idlex"]]
-    ghosts = gl[e.choose(len(gl), "ghosts")]
-    if op == "sweep":
-        shapes, oth = ["none"], ["none", "sub0s0", "idle0", "sub1s0"]
-    elif op == "bind2":
-        shapes, oth = ["unbound"], ["none", "idle0"]
-    else:
-        shapes, oth = ["fresh", "sub0", "claimed0"], (["none", "sub0s1", "idle0"] if tier == "thorough" else ["none", "sub0s1"])
-    xa = build(e, crowd=crowd, acting=shapes, others=oth, ghosts=ghosts, **bd)
-    kf = kf_d6_for(cmd, xa)
-    exa = apply_cmd(xa, cmd)
-    posta = xa.w.snapshot()
-    conns_a = list(xa.w.conns) + ([xa.c] if xa.c is not None and xa.c not in xa.w.conns else [])
-    fa = {c.label: step_frames(c) for c in conns_a if not c.label.startswith("g")}
-    xb = build(e, crowd=crowd, share=xa, **bd)
-    exb = apply_cmd(xb, cmd)
-    postb = xb.w.snapshot()
-    conns_b = list(xb.w.conns) + ([xb.c] if xb.c is not None and xb.c not in xb.w.conns else [])
-    fb = {c.label: step_frames(c) for c in conns_b}
+    hl = histories or HISTORIES
+    hist = hl[e.choose(len(hl), "history")]
+    sy = {k: e.sym_str(k) for k in ("g.side", "h.side", "h.name", "g.phase", "g.body", "g.mid")}
+    crowd = 0
+    xa = build(e, crowd=crowd, acting=["none"], others=["none"], **bd)
+    run_history(xa, hist, sy)
+    # the reconnecting client: any (app, side), in particular those used before the cut
+    app, side = e.sym_str("c.app"), e.sym_str("c.side")
+    results = []
+    for which in ("kept", "restarted"):
+        if which == "restarted":
+            xb = build(e, crowd=crowd, share=xa, **bd)
+            run_history(xb, hist, sy)
+            xb.w.restart()
+            x = xb
+        else:
+            x = xa
+        w = x.w
+        c = w.new_conn("c0")
+        x.c, x.app, x.side = c, app, side
+        bex = w.deliver(c, w.msg("bind", appid=app, side=side))
+        ex = apply_cmd(x, cmd) if op != "sweep" else w.expire()
+        results.append(dict(x=x, bex=bex, ex=ex, post=w.snapshot(),
+                            frames={cc.label: [r for r in step_frames(cc)] for cc in w.conns}))
+    ra, rb = results
+    kf = Or(kf_d6_for(cmd, ra["x"]), kf_d6_for(cmd, rb["x"]))
     A = {}
-    A["C11.exceptions"] = (type(exa) is type(exb))
-    A["C11.frames"] = And(*[frames_equal(fa.get(l, []), fb.get(l, [])) for l in sorted(set(fa) | set(fb))])
-    A["C11.store"] = stores_equal(posta, postb)
-    A["C11.related"] = And(subscribed_labels(xa.w) == subscribed_labels(xb.w),
-                           *[conn_state_equal(conn_by_label(xa.w, l), conn_by_label(xb.w, l))
-                             for l in all_labels(xa.w, xb.w)])
-    for k, v in inv_mem(xa.w, posta).items():
-        A["C11.memA." + k] = v
-    for k, v in inv_mem(xb.w, postb).items():
-        A["C11.memB." + k] = v
-    return PathResult(A, world=[xa.w, xb.w], kf=[("KF-D6", kf)],
-                      info=dict(op=op, ghosts=ghosts, shape="%s/%s" % (xa.a_shape, xa.o_shape)))
+    A["C11.exceptions"] = (type(ra["ex"]) is type(rb["ex"]) and type(ra["bex"]) is type(rb["bex"]))
+    A["C11.frames"] = And(*[frames_equal(ra["frames"].get(l, []), rb["frames"].get(l, []))
+                            for l in sorted(set(ra["frames"]) | set(rb["frames"]))])
+    A["C11.store"] = stores_equal(ra["post"], rb["post"])
+    A["C11.related"] = And(subscribed_labels(ra["x"].w) == subscribed_labels(rb["x"].w),
+                           conn_state_equal(conn_by_label(ra["x"].w, "c0"), conn_by_label(rb["x"].w, "c0")))
+    return PathResult(A, world=[ra["x"].w, rb["x"].w], kf=[("KF-D6", kf)],
+                      info=dict(op=op, history=hist))
 
 
 SUCCESS = {"claim": ["ack", "claimed"], "release": ["ack", "released"], "close": ["ack", "closed"]}
